@@ -148,7 +148,14 @@ def one_setup(chk, drv, it, stats):
            'B': rng.choice([1.0, 1.0, 2.0]), 'dens_degree': rng.choice([3, 6])}
     rrange = rng.choice([(0.1, 14.5), (1.0, 3.0), (2.0, 9.0)])
     # theta, z splines are irrelevant for the pipeline (only their grids are used); keep them valid
-    S = H.make_setup([nr, max(nth, 2), max(nz, 2), nv], [d, 1, 1, 3], uniform_flag, rrange=rrange)
+    # profile constants as a parameter file may give them: the electron temperature profile need not share the ion width / gradient
+    prof = {}
+    if rng.random() < 0.5:
+        prof = {'deltaRTe': rng.choice([0.5, 0.9, 2.3]), 'kTe': rng.choice([0.1, 0.4]), 'CTe': rng.choice([1.0, 1.5]),
+                'deltaRN0': rng.choice([2.9, 1.7]), 'kN0': rng.choice([0.055, 0.1])}
+    S = H.make_setup([nr, max(nth, 2), max(nz, 2), nv], [d, 1, 1, 3], uniform_flag, rrange=rrange, **prof)
+    if prof:
+        S['constants'].getCN0()
     S['eta'] = [S['eta'][0], np.linspace(0, 2 * np.pi, nth, endpoint=False), np.linspace(0, 1, nz, endpoint=False), S['eta'][3]]
     consts = S['constants']
     consts.npts = [nr, nth, nz, nv]
